@@ -119,9 +119,11 @@ Fixpoint seq_collect (rs : list (res val * nat)) : res (list val) * nat :=
     end
   end.
 
+(* `result[rec(key)] = rec(value)`: Python evaluates the right-hand side first,
+   so the finalised items arrive as value, key, value, key, ... *)
 Fixpoint pair_up (l : list val) : list (val * val) :=
   match l with
-  | k :: v :: r => (k, v) :: pair_up r
+  | v :: k :: r => (k, v) :: pair_up r
   | _ => []
   end.
 
@@ -165,7 +167,7 @@ Fixpoint fin (N : Z) (o : opts) (v : val) {struct v} : res val * nat :=
   | VDict kvs =>
     if too_large N (length kvs) then (TooLarge, O)
     else wrap (fun l => VDict (pair_up l))
-              (seq_collect (flat_map (fun kv => let '(k, x) := kv in [fin N o k; fin N o x]) kvs))
+              (seq_collect (flat_map (fun kv => let '(k, x) := kv in [fin N o x; fin N o k]) kvs))
   | VIter l e => wrap VList (iter_collect N O (map (fin N o) l) e)
   end.
 
